@@ -69,6 +69,17 @@ func build(tb *model.Table, viaGroup []int) *rux.Router {
 		}
 		prefix := model.Pattern{Segs: d.P.Segs[:k]}.String()
 		rest := model.Pattern{Segs: d.P.Segs[k:], Opt: d.P.Opt, TrailSlash: d.P.TrailSlash}.String()
+		// the prefix in one of its equivalent spellings (Group normalises it like a route path)
+		switch (i / 2) % 4 {
+		case 1:
+			if !tb.Opts.Strict {
+				prefix += "/"
+			}
+		case 2:
+			prefix = strings.TrimPrefix(prefix, "/")
+		case 3:
+			prefix = " " + prefix + "\t"
+		}
 		r.Group(prefix, func() {
 			if i%2 == 1 {
 				// a nested group (with a route of its own that no probe asks for) opens and closes first: the
